@@ -41,10 +41,13 @@ Second generation (same translator, src/classgroup.rs, src/qsieve.rs, src/ecm.rs
 What this does not model: the cost of an action (the time between two polls is measured on the real code
 by the C05 check), `prepare_a` / `batch_inversion` (no protocol action). In the model a true poll ends the WORKER; in the
 source it ends the unit for the drivers listed `false` in `leavesLoop` — the difference is the entry tests of the remaining
-units (no add, no sieving: `source_named_ok`), which the step bounds here do not count.
+units (no add, no sieving: `source_named_ok`), which the step bounds here do not count. `abort_unit_bounded` (last section) is the
+statement on the unit-level model (Ymq/Model/SchedUnits.lean) that has both reactions: relations added after the request are at
+most one unit's worth per worker, for either reaction, for every shape that polls in `pre`; `ecm_unit_abort_faithful` its ECM instance.
 -/
 import Ymq.Lemmas.SchedShape
 import Ymq.Lemmas.SchedShape2
+import Ymq.Lemmas.SchedUnits
 import Ymq.Props.C04
 import Ymq.Props.C05Sched
 
@@ -438,5 +441,56 @@ example :
       after.length ≤ progs.length * 8 := by decide
 
 example : (merge [1, 2, 3] [10, 20] [false, true, true, false] : List Nat) = [10, 1, 2, 20, 3] := by decide
+
+
+/-! ## the unit-faithful statement: a true poll may end the unit only -/
+
+/-- **Abort request on the unit-level model** (Ymq/Model/SchedUnits.lean: unit boundaries kept; `leaves = false`: a poll answered
+`true` ends the UNIT, the worker goes on to its next unit and polls again — the par_iter closures of siqs / mpqs / classgroup and
+ECM's do_curve; `leaves = true`: it ends the loop). For every shape whose `pre` polls (generated data: `source_named_ok`), every
+schedule prefix `before`, every later schedule on which the predicate answers `true`, with or without stale flag reads and
+WITHOUT any assumption on how many steps are taken: the relations added after the request are at most `B` per worker, where `B`
+bounds the relations of ONE unit — the remainder of the unit each worker is in; no later unit adds anything, however many remain. -/
+theorem abort_unit_bounded (leaves : Bool) (add : σ → ρ → σ) (enough : σ → Bool) (sh : Shape)
+    (hp : sh.pre.contains K.poll = true) (s0 : σ) (progs : List (List (List (List ρ)))) (B : Nat)
+    (hB : ∀ prog ∈ progs, ∀ u ∈ prog, (pendingAdds (compileUnit sh u)).length ≤ B)
+    (before after : List (Nat × Bool × Bool)) (hab : allAbort after) :
+    (runU leaves add enough (runU leaves add enough (initU sh s0 progs) before) after).log.length ≤
+      (runU leaves add enough (initU sh s0 progs) before).log.length + progs.length * B := by
+  have h0 := invU_init sh hp s0 progs B hB
+  obtain ⟨i1, l1⟩ := runU_inv leaves add enough B before _ h0
+  obtain ⟨_, r2, _⟩ := runU_abort leaves add enough B after _ i1 hab
+  have hp' := potU_le B _ i1
+  rw [l1] at hp'
+  have hl : (initU sh s0 progs : UCfg ρ σ).ws.length = progs.length := by simp [initU]
+  rw [hl] at hp'
+  omega
+
+/-- ECM: after an abort request each worker reports at most once more (the curve it is in), whatever the number of curves left -/
+theorem ecm_unit_abort_faithful (add : σ → ρ → σ) (enough : σ → Bool) (s0 : σ) (progs : List (List (Option ρ)))
+    (before after : List (Nat × Bool × Bool)) (hab : allAbort after) :
+    (runU false add enough (runU false add enough (initU ecmUnit s0 (progs.map (fun p => p.map curveUnit))) before) after).log.length ≤
+      (runU false add enough (initU ecmUnit s0 (progs.map (fun p => p.map curveUnit))) before).log.length + progs.length := by
+  have := abort_unit_bounded false add enough ecmUnit (by decide) s0 (progs.map (fun p => p.map curveUnit)) 1
+    (by
+      intro prog hprog u hu
+      obtain ⟨p, _, rfl⟩ := List.mem_map.mp hprog
+      obtain ⟨o, _, rfl⟩ := List.mem_map.mp hu
+      cases o <;> simp [compileUnit, curveUnit, ecmUnit, expand, expandK, pendingAdds]) before after hab
+  simpa using this
+
+/-- non-vacuity: one SIQS worker with a pool, two A values; the request arrives inside the first A (after `add 2`): the worker
+finishes that A (4, 6), takes the second A, runs its entry test (check, check, poll -> `true`: leaves the UNIT) and is finished:
+1 and 3 are never added; 2 relations after the request, within 1 * 3 -/
+example :
+    let progs : List (List (List (List Nat))) := [[[[2, 4], [6]], [[1], [3]]]]
+    let c0 := runU false (· + ·) (fun _ => false) (initU siqsMt 0 progs)
+      [(0, false, false), (0, false, false), (0, false, false), (0, false, false), (0, false, false), (0, false, false)]
+    let after := [(0, false, true), (0, false, true), (0, false, true), (0, false, true), (0, false, true),
+      (0, false, true), (0, false, true), (0, false, true), (0, false, true)]
+    let c := runU false (· + ·) (fun _ => false) c0 after
+    c0.log = [2] ∧ c.log = [2, 4, 6] ∧ finishedU c = true ∧ allAbort after ∧
+      (∀ prog ∈ progs, ∀ u ∈ prog, (pendingAdds (compileUnit siqsMt u)).length ≤ 3) := by
+  refine ⟨by decide, by decide, by decide, by simp [allAbort], by decide⟩
 
 end Ymq.C04Shape
